@@ -77,6 +77,43 @@ CHECKS = {
         ref="3 C09", technique="Lean 4 proof (subset / nodup / sortedness invariants of the selection flow) + model/implementation correspondence",
         note=TB + "that the caller's UTxO objects and lists are left unmodified is shown by snapshots in the differential "
                   "run only (the model is pure)."),
+    "C10": dict(
+        text="Lean theorems: RFC 8032 and BIP32-Ed25519 extended signing satisfy the verification equation in an abstract "
+             "commutative group (Mathlib AddCommGroup, L*B = 0 as hypothesis); the required key-hash set is characterised "
+             "source by source (inputs, collateral, required signers, native scripts at any depth incl. n-of-k and attached "
+             "scripts, all certificate credential kinds, pool owners, key withdrawals, key voters); witnesses cover every "
+             "supplied required key, are minimal unless forced, order-free, 32-byte vkeys; placeholder count = distinct "
+             "required hashes (bounded counterexample beyond 256 proved). Tied to /repo by differential runs and an "
+             "independent Ed25519 verifier over the body byte slice.",
+        ref="3 C10", technique="Lean 4 proof (signature algebra in an abstract group + membership characterisation) + model/implementation correspondence",
+        note=TB + "the edwards25519 group law, SHA-512 and BLAKE2b are hypotheses / abstract, validated against libsodium "
+                  "and hashlib; all_scripts' de-duplication by hash is treated as a no-op in the model (assumption recorded)."),
+    "C11": dict(
+        text="Lean theorems over a model of the builder's redeemer bookkeeping: hex-string order = byte order (so the "
+             "builder's sort is the ledger order), spend / mint / reward indices are ranks in the ledger orders for any "
+             "number of items, certificate indices, independence of the call order, every needed script available exactly "
+             "once, datums present, automatic validity interval contains the slot. Tied to /repo by differential runs and "
+             "judged on the decoded transaction bytes.",
+        ref="3 C11", technique="Lean 4 proof (rank equalities after selection and sort) + model/implementation correspondence",
+        note=TB + "coin selection is taken as given (C14/C09); reward ranks for mixed key/script withdrawals are counted, "
+                  "not asserted (no ledger available); recorded defects KF-C11-duplicate-input, KF-C11-zero-mint-policy."),
+    "C12": dict(
+        text="Lean theorems: the script-data-hash preimage is exactly (redeemer bytes as shipped) ++ (datum bytes as shipped) "
+             "++ canonical language views, for map and list mode and after evaluated units replace the placeholders; absent "
+             "iff no redeemers and no datums; language views equal the canonical specification for every language set. Tied "
+             "to /repo by recomputing the hash with hashlib from byte slices of the shipped witness set and an independent "
+             "language-view encoder.",
+        ref="3 C12", technique="Lean 4 proof (preimage equality between body hash and shipped witness bytes) + model/implementation correspondence",
+        note=TB + "BLAKE2b abstract (statements are about preimages)."),
+    "C13": dict(
+        text="Lean theorems over a transliteration of _set_collateral_return: chosen collateral is key-locked, > 2 ADA, from the "
+             "candidate lists, pairwise distinct (under reference consistency), within max_collateral_inputs, total = inputs - "
+             "return for ADA with all assets returned, required amount = ceil(maxFee * percent / 100) hence >= percent of any "
+             "fee <= maxFee, return holds its minimum ADA, loop termination. Tied to /repo by differential runs of the "
+             "collateral step and whole builds, judged on decoded body bytes.",
+        ref="3 C13", technique="Lean 4 proof (collateral invariants of the selection loop) + model/implementation correspondence",
+        note=TB + "explicit collateral supplied by the caller is passed through (judged for the limit only); recorded defect "
+                  "KF-C13-fee-buffer."),
     "C14": dict(
         text="Lean theorems over statement-by-statement models of LargestFirstSelector and RandomImproveMultiAsset for "
              "every pool, request, limit, flag combination and index stream: selection is a duplicate-free sub-list of the "
